@@ -236,6 +236,11 @@ def graphs(draw, max_triples=10, xml_safe=False, noncanon=False, invalid=False, 
         triples += [[["u", "urn:s"], TYPE, B(0, "c")], [B(0, "c"), ["u", "http://www.w3.org/2000/01/rdf-schema#label"], ["l", "anon", None, None]],
                     [B(0, "c"), TYPE, ["u", "http://www.w3.org/2002/07/owl#Restriction"]]]
         feats.add("bnode-as-type")
+    if k == 9:
+        # classes that are terms of the RDF/XML syntax itself
+        triples += [[["u", "urn:s"], TYPE, ["u", RDF + "Description"]], [["u", "urn:s"], ["u", "urn:p"], ["l", "x", None, None]],
+                    [B(0, "y"), TYPE, ["u", RDF + draw(st.sampled_from(["li", "RDF", "Description", "Bag"]))]]]
+        feats.add("type-is-syntax-term")
     # dedupe preserving order
     seen, outl = set(), []
     for t in triples:
